@@ -153,7 +153,7 @@ def gen(seed, tier, prop):
     """prop = 'C18' (q=live, crawl) or 'C17' (q=dce, simp, lower, pipe)"""
     rng = random.Random(seed * 31 + (18 if prop == "C18" else 17))
     lines = list(CORPUS_C18 if prop == "C18" else CORPUS_C17)
-    n = (450 if tier == "quick" else 12000)
+    n = (2000 if tier == "quick" else 30000)
     for i in range(n):
         nb, nv, ex, blocks, edges, extra, na = gen_cfg(rng, big=(i % 7 == 0))
         if prop == "C18":
